@@ -639,32 +639,33 @@ def thread_known_variants(crate, d, rounds=12):
             jp = pr[join]
             if len(jp) < 2:
                 continue
-            # which predecessors know the variant?
+            # every way of arriving at the join along straight-line code (through inner joins as well) that starts right
+            # after an assignment of a known variant to the subject: [(assignment block, variant, [blocks from there to the join))]
             plans = []
-            for p in jp:
-                sj = subj
-                q = p
-                kv = None
-                hops = 0
-                while hops < 8:
-                    hops += 1
-                    qt = blocks[q]["term"]
-                    if len(_succs(qt)) != 1:
-                        break
-                    if qt["k"] == "call" and qt["dest"]["l"] == sj and not qt["dest"]["p"]:
-                        break
-                    sj, kv, stop = scan_back(q, sj)
-                    if stop or kv:
-                        break
-                    qp = pr[q]
-                    if len(qp) != 1:
-                        break
-                    q = qp[0]
+
+            def back(blockid, sj, path, depth):
+                if depth > 48 or len(plans) > 12:
+                    return
+                qt = blocks[blockid]["term"]
+                if len(_succs(qt)) != 1 or blocks[blockid].get("cleanup"):
+                    return
+                if qt["k"] == "call" and qt["dest"]["l"] == sj and not qt["dest"]["p"]:
+                    return
+                sj2, kv, stop = scan_back(blockid, sj)
                 if kv:
-                    plans.append((p, kv))
+                    plans.append((blockid, kv, list(path)))
+                    return
+                if stop:
+                    return
+                for q in pr[blockid]:
+                    if q in path or q == blockid:
+                        continue
+                    back(q, sj2, [blockid] + path, depth + 1)
+            for p in jp:
+                back(p, subj, [], 0)
             if not plans:
                 continue
-            for p, kv in plans:
+            for p, kv, prefix in plans:
                 variant = BRANCH_MAP.get(kv) if via_branch else kv
                 if variant is None:
                     continue
@@ -677,11 +678,12 @@ def thread_known_variants(crate, d, rounds=12):
                         tgt = b
                 if tgt is None:
                     tgt = t["otherwise"]
-                # clone the chain for this predecessor
+                # clone the way from the assignment to the switch for this arrival
+                full = prefix + chain
                 base = len(blocks)
-                clones = copy.deepcopy([blocks[c] for c in chain])
+                clones = copy.deepcopy([blocks[c] for c in full])
                 for i, cb in enumerate(clones):
-                    cb["threaded_from"] = chain[i]
+                    cb["threaded_from"] = full[i]
                     ct = cb["term"]
                     if i < len(clones) - 1:
                         nxt = base + i + 1
@@ -698,8 +700,6 @@ def thread_known_variants(crate, d, rounds=12):
                                 src_ty = locals_[arg["place"]["l"]]["ty"]
                                 op = {"k": "move", "place": {"l": arg["place"]["l"], "p": [{"k": "downcast", "variant": inner_variant, "idx": 0},
                                                                                              {"k": "field", "i": 0, "name": "0", "variant": inner_variant, "ty": src_ty}], "ty": src_ty}}
-                                if kv == "Some" or kv == "Ok":
-                                    pass
                                 cb["stmts"].append({"k": "assign", "place": copy.deepcopy(ct["dest"]),
                                                     "rv": {"k": "agg", "ak": "adt", "path": "std::ops::ControlFlow", "variant": "Continue", "vidx": 0,
                                                            "fields": ["0"], "gargs": [], "ops": [op]}, "at": at})
@@ -712,15 +712,16 @@ def thread_known_variants(crate, d, rounds=12):
                         cb["term"] = {"k": "goto", "target": tgt, "at": ct.get("at", ""), "exp": False, "macros": [], "false_edge": False,
                                       "false_unwind": False, "resolved_switch": variant}
                 blocks.extend(clones)
-                # retarget the predecessor's edge
+                # retarget the edge that leaves the assignment block
+                first = full[0]
                 ptm = blocks[p]["term"]
                 if ptm["k"] == "goto":
                     ptm["target"] = base
                 elif ptm["k"] in ("call", "drop", "assert"):
                     ptm["target"] = base
                 elif ptm["k"] == "switch":
-                    ptm["targets"] = [[v, base if b == join else b] for v, b in ptm["targets"]]
-                    if ptm["otherwise"] == join:
+                    ptm["targets"] = [[v, base if b == first else b] for v, b in ptm["targets"]]
+                    if ptm["otherwise"] == first:
                         ptm["otherwise"] = base
                 done = True
             if done:
